@@ -22,14 +22,16 @@ CLAIMS = {
             "Bounded: widths listed (quick: {0,1,7,63,64,65,128,250}); sums of at most 3 elements; Kani std models."),
     "C02": ("5/C02",
             "overflowing_mul (generic trimming path) and wrapping_mul (unrolled 1-3-limb paths) at widths "
-            "{64,65,127,128,129,192} and widening_mul at (64,64),(65,64),(64,128),(128,128),(129,65) for ALL operand "
+            "{64,65,127,128,129,192} (wrapping_mul also at 256 bits) and widening_mul at (64,64),(65,64),(64,128),(128,128),(129,65) for ALL operand "
             "pairs with the 64x64->128 limb product abstracted as an uninterpreted function (axioms: 0*x, 1*x, "
             "commutativity, consistency, range); checked/saturating/operators/Product plumbing with the multipliers "
             "stubbed; every operand pair at widths {1,2,7,8,16} with the real multipliers; inv_ring on every value at "
             "{1,2,3,7,8} (Some(x) canonical with a*x = 1 mod 2^BITS exactly for odd a) and = None for every even "
-            "value at {0,1,7,64,65,128,250}.",
+            "value at {0,1,7,64,65,128,250}; on the unit-limb sub-domain (every limb of one operand 0 or 1, the other operand "
+            "FULL, either order), where the abstraction is exact: overflowing_mul/wrapping_mul at 128 and 192 bits and widening_mul "
+            "192x192 -> 384 (all rows of the generic addmul full).",
             "The three DoubleWord multiply bodies are decided in C15 (unstubbed, relative to Rust's `*`). Outside: "
-            "LIMBS >= 4 multiplication, inv_ring's Some branch at 16 bits and above (five dependent 64-bit Newton "
+            "the generic addmul at LIMBS >= 4 (no verdict within 1500-1800 s on any domain tried), inv_ring's Some branch at 16 bits and above (five dependent 64-bit Newton "
             "steps: > 600 s), full-range 64-bit products without the abstraction."),
     "C03": ("5/C03",
             "All division forms (div_rem, / % /= %= in all shapes, wrapping_/checked_ forms, div_ceil, "
@@ -44,8 +46,10 @@ CLAIMS = {
             "== != cmp partial_cmp < <= > >= min max is_zero Hash on all pairs, constants, from_limbs accepts exactly "
             "the canonical arrays (panic otherwise), rand 0.8/0.9 generators under a nondeterministic RngCore, "
             "arbitrary::Arbitrary over symbolic bytes, and a closure sweep of producers, at widths "
-            "{0,1,2,7,8,63,64,65,127,128,129,192,250,256}; canonicity of every other operation's result is asserted "
-            "inside the other properties' harnesses.",
+            "{0,1,2,7,8,63,64,65,127,128,129,192,250,256}; whatever from_base_be/le (digit strings <= 3, bases 3/10/1000/2^32), "
+            "from_str_radix (ASCII <= 3 chars, radix 10/36), try_from_be/le_slice and checked_from_limbs_slice accept is canonical, at "
+            "{8,65} bits (thorough 7, 127); canonicity of every other operation's result is asserted inside the other properties' "
+            "harnesses.",
             "Not covered: the ill-formed (BITS, LIMBS) clause (compile-time outcomes are not solver-decidable; the "
             "known Uint::<64,2>::MAX case is listed in DESIGN 7), quickcheck and proptest generators (thread RNG / "
             "strategy machinery), closure under mul/div/gcd-family operations beyond what C02/C03 assert."),
@@ -58,32 +62,15 @@ CLAIMS = {
             "digit array of length <= 3 (u64 digits) for bases {2,10,2^32,2^64-1}; bases 0 and 1 rejected.",
             "Not claimed: all of Display/Debug/LowerHex/UpperHex/Octal/Binary (core::fmt does not finish under CBMC "
             "even at 8 bits); strings longer than 4 bytes; non-ASCII input; symbolic bases for the digit iterators."),
-    "C10": ("5/C10",
-            "add_mod's add/compare/conditional-subtract logic for ALL (a, b, m) at widths {1,7,64,65,127,128,129,250} "
-            "with reduce_mod abstracted to 'any residue below m'; reduce_mod's plumbing for ALL (a, m) with div_rem "
-            "stubbed; reduce_mod, add_mod, mul_mod end-to-end on every (a, b, m) at 2 bits and reduce_mod/add_mod at 8 "
-            "bits with the real code (thorough: 1, 7, 8 bits all four incl. pow_mod with exponent < 8).",
-            "Outside: mul_mod/pow_mod value correctness above 8 bits, exponents >= 8, inv_mod (shares the Lehmer "
-            "loop, see C12)."),
-    "C16": ("5/C16",
-            "alloy-rlp, fastrlp 0.3/0.4 (bytes = minimal big-endian RLP string, length() exact, decode(encode) = v), "
-            "SSZ and borsh (BYTES little-endian bytes, lengths, round trip), SCALE fixed form (prefix + LE bytes, "
-            "size_hint and max_encoded_len are upper bounds, round trip), SCALE compact (four modes, size_hint bound, "
-            "also on a 264-bit type), DER (canonical INTEGER TLV, value_len) for ALL values at widths "
-            "{0,1,7,8,16,60,64,65,72,128}; serde binary form (capturing Serializer + binary visitor), primitive-types "
-            "U128/U256/H128/H256, bytemuck Pod/Zeroable, postgres to_sql->from_sql for BOOL/INT2/4/8/OID/MONEY/BYTEA/"
-            "BIT/VARBIT at 16 bits (thorough 8, 65).",
-            "Not claimed: the rlp crate's encoder (RlpStream does not finish), serde human-readable serialisation and postgres text/JSON encodings (format!), postgres "
-            "NUMERIC (round trip undecided in 500 s), num-bigint, ark-ff, the 55-byte RLP and 536-bit compact limits "
-            "(width too large for the budget)."),
-    "C18": ("5/C18",
-            "Uint -> f64: the result is finite, non-negative and one of the two 53-bit neighbours of the exact value, "
-            "exact whenever representable, for ALL values at 8 and 64 bits; f64 -> Uint: every NaN pattern yields "
-            "NotANumber and saturating/wrapping_from give 0 at widths {0,1,8,64,65}.",
-            "Weak fit, stated: every other float -> Uint class (negative, sub-half, halves, [2^52,2^53), too large, "
-            "infinities) does not finish - TryFrom<f64> evaluates `value % modulus` (CBMC models fmod by a loop) and "
-            "re-enters itself; > 300 s even for the constant +inf. f32, monotonicity and widths > 64 for Uint -> f64 "
-            "are registered only where a probe finished."),
+    "C10": ('5/C10',
+            "add_mod's add/compare/conditional-subtract logic for ALL (a, b, m) at widths {1,7,64,65,127,128,129,250} with reduce_mod abstracted to 'any residue below m'; reduce_mod's plumbing for ALL (a, m) with div_rem stubbed; reduce_mod, add_mod end-to-end on every (a, b, m) at 2 and 8 bits (thorough: mul_mod at {1,2,3,4,7,8}, pow_mod with exponent < 8 at {1,2,7,8}) with the real code; pow_mod on every (a, e, m) at {3,8} bits (thorough {2,4,7}) compositionally with mul_mod replaced by its specification; inv_mod on every (a, m) at {1,3} bits (thorough 2,4,5,6,8) with the real Lehmer/Euclid code: Some(x) with x < m and a*x = 1 (mod m) exactly when m >= 2 and gcd(a, m) = 1.",
+            'Outside: mul_mod/pow_mod/inv_mod value correctness above 8 bits (multi-limb reduction runs through the Knuth division kernels, see C14).'),
+    "C16": ('5/C16',
+            'alloy-rlp, fastrlp 0.3/0.4 (bytes = minimal big-endian RLP string, length() exact, decode(encode) = v), SSZ and borsh (BYTES little-endian bytes, lengths, round trip), SCALE fixed form (prefix + LE bytes, size_hint and max_encoded_len are upper bounds, round trip), SCALE compact (four modes, size_hint bound, also on a 264-bit type), DER (canonical INTEGER TLV, value_len) for ALL values at widths {0,1,7,8,16,60,64,65,72,128}; serde binary form (capturing Serializer + binary visitor), primitive-types U128/U256/H128/H256, bytemuck Pod/Zeroable, postgres to_sql->from_sql for BOOL/INT2/4/8/OID/MONEY/BYTEA/BIT/VARBIT at 16 bits (thorough 8, 65); postgres NUMERIC wire format (ndigits, weight, sign, dscale, base-10000 digits with trailing zero digits stripped) for every value at 16 bits (thorough: 32 bits, and the NUMERIC round trip at 16 bits), by a constructive oracle that builds the value from symbolic base-10000 digits.',
+            "Not claimed: the rlp crate's encoder (RlpStream does not finish), serde human-readable serialisation and postgres text/JSON encodings (format!), NUMERIC above 32 bits, num-bigint, ark-ff, the 55-byte RLP and 536-bit compact limits (width too large for the budget)."),
+    "C18": ('5/C18',
+            'f64 -> Uint (TryFrom, saturating_from; f32 through exact widening): EVERY f64 bit pattern, split into seven classes (NaN, negative incl. -inf, [0, 1/2) incl. -0 and subnormals, [1/2, 2^52), [2^52, 2^53), finite >= 2^53, +inf), at widths {0,1,8,52,53,54,64,65,128,256}: NotANumber / ValueNegative / ValueTooLarge / Ok(floor(f + 1/2)) exactly, against an integer-only oracle on the bit pattern; every f32 bit pattern at {0,1,8,24,25,64,65,128,129}. Uint -> f64 and Uint -> f32 for ALL values at {0,1,8,53,54,64,65,128,129,192,256}: non-negative, one of the two neighbours of the exact value, exact when representable, +inf (f32) only when the upper neighbour is 2^128 or the value has more than 128 bits; monotonicity on ALL ordered pairs at {8,64,65,128,129} (thorough).',
+            "f64::exp2 / f32::exp2 are replaced by an exact power-of-two constructor that fails the harness on a non-integer argument (ruint only passes integers; CBMC's own exp2 is an approximation with a nondeterministic error). The harness-wide unwinding bound is also the recursion bound of TryFrom<f64> (it re-enters itself for negative and too-large inputs): bound max(LIMBS+1, 3), unwinding assertions on. Not covered: wrapping_from's documented-as-unfinished float behaviour beyond what try_from's payloads imply, widths above 256 bits, approx_* functions."),
     "C20": ("5/C20",
             "subtle (ct_eq/ct_gt/ct_lt, conditional_select/assign/swap/negate, bit_ct incl. its panic), the Bits "
             "wrapper's forwarded methods and operators, num-traits (Zero/One/Bounded, Checked*/Saturating*/Wrapping*/"
@@ -92,25 +79,20 @@ CLAIMS = {
             "and division-based facades (all / % operator shapes, CheckedDiv/Rem, Euclid, CheckedEuclid, num-integer "
             "div_floor/mod_floor/div_rem/div_ceil/is_multiple_of) with the inherent multipliers / div_rem replaced by "
             "tagged mixing stubs; zero-divisor None; parity, inc, dec; Sum/Product by value and by reference over 0..=3 "
-            "elements. Widths {0,1,7,64,65,128,250}.",
-            "Not covered: Pow/Inv/PrimInt::pow, gcd/lcm/extended_gcd forwarding, swap_bytes/from_be/to_be, Num::"
-            "from_str_radix, zeroize. Rotations use amounts 0..=65535."),
-    "C11": ("5/C11",
-            "mul_redc at N = 1 on an 11-free-bit lattice: m = {2^62-32, 2^62, 2^63-32, 2^63, 2^64-32} + 2x+1 (below, at "
-            "and above both carry thresholds), a, b = small or m-1-small, inv from an independent Newton iteration: "
-            "the result is < m and equals (a*b + k*m)/2^64 reduced once, k = a*b*inv mod 2^64, i.e. a*b*2^-64 mod m; "
-            "witnesses for the subtract-taken and extra-carry paths are required. Thorough: square_redc against its "
-            "definition and Uint::{mul_redc,square_redc} against the slice-level functions on the same lattice.",
-            "Very narrow, stated: N >= 2, anything off the lattice (20 free bits did not finish in 900 s: three "
-            "dependent 64x64 products per row and a debug assertion that needs (v*inv)*m = v*(inv*m))."),
-    "C13": ("5/C13",
-            "all five pow forms at 1 bit and wrapping_pow at 3 bits for every (base, exponent) (thorough: pow/"
-            "wrapping_pow at 2 and 3 bits); log2/checked_log2 at every width in "
-            "{1,2,3,4,7,8,64,65,128,250} and log10/checked_log10 below 4 bits (where the constants 2 and 10 do not fit), "
-            "log2(0)/log10(0) and root(degree 0) panic.",
-            "Outside (measured): log with a generic base and root for 2 <= degree < BITS (float-seeded correction "
-            "loops; even their float-free inputs cost > 400 s at one bit), approx_* functions, the flag-carrying pow "
-            "forms above one bit (CBMC out of memory) and every pow form above 3 bits."),
+            "elements; Pow, Inv, PrimInt::pow (every u32 exponent expressible as Uint), Integer::{gcd,lcm,extended_gcd} with the inherent "
+            "pow/inv_ring/gcd/lcm/gcd_extended stubbed, Integer::lcm panics exactly when lcm is None. Widths {0,1,7,64,65,128,250}; "
+            "PrimInt::{swap_bytes,to_be,from_be,to_le,from_le} at {8,64,72,128,256}.",
+            "Not covered: Num::from_str_radix, zeroize, swap_bytes at widths that are not a multiple of 8 (documented as not "
+            "well-defined), PrimInt::pow for exponents >= 2^BITS (panics, DESIGN 7). Rotations use amounts 0..=65535."),
+    "C11": ('5/C11',
+            'mul_redc and square_redc at N = 1 on EVERY odd modulus 3..=255 (composite moduli with zero divisors included) and every a, b < m: r < m and r * 2^64 = a * b (mod m); plus mul_redc on an 11-free-bit lattice around the carry thresholds: m = {2^62-32, 2^62, 2^63-32, 2^63, 2^64-32} + 2x+1, a, b = small or m-1-small, inv from an independent Newton iteration: the result is < m and equals (a*b + k*m)/2^64 reduced once, k = a*b*inv mod 2^64; witnesses for the subtract-taken and extra-carry paths are required. Thorough: square_redc and Uint::{mul_redc,square_redc} on the same lattice.',
+            'Narrow, stated: N >= 2, and 64-bit moduli off the lattice (20 free bits did not finish in 900 s: three dependent 64x64 products per row and a debug assertion that needs (v*inv)*m = v*(inv*m)).'),
+    "C12": ('5/C12',
+            "gcd, lcm, gcd_extended and LehmerMatrix::from + apply on EVERY operand pair at widths {1,3} bits (thorough: 2, 4 and the widths above that finish) with the real code: gcd equals Euclid's result (gcd(0,0) = 0, gcd(a,0) = a); lcm = Some(a*b/gcd) exactly when it fits, Some(0) with a zero operand, None otherwise; gcd_extended returns the gcd and cofactors with a*x - b*y = g (sign) or b*y - a*x = g (not sign) modulo 2^BITS; the update matrix for a >= b is the identity or maps (a, b) to (c, d) with c >= d, d < b and the same gcd. At these widths LehmerMatrix::from is from_u64 (the complete 64-bit extended Euclid).",
+            'Narrow, stated: widths above 8 bits, and therefore the 128-bit prefix path (from_u64_prefix / from_u128_prefix, pinned unreachable by a panicking stub) and the full-precision Euclid fallback, are outside: each loop iteration of from_u64 is two 64-bit dividers and six 64-bit multipliers, and the loop bound grows with the width (4 bits: 5 min per harness).'),
+    "C13": ('5/C13',
+            'all five pow forms for every (base, exponent): real code at 1 bit (wrapping_pow/pow also at 2, 3 bits), and at {2,3,4,7,8} bits compositionally with overflowing_mul/wrapping_mul replaced by their specification (which C02 decides against the real multipliers at the same widths): value mod 2^BITS, overflow flag exactly when a^e >= 2^BITS, 0^0 = 1; generic-base log/checked_log on every (value, base) at {2,3,4} bits and log10/checked_log10 at 4 bits (compositional: multiplier specification, exact exp2, table-exact log2 on 1..=255): floor(log_b v), None exactly for v = 0 or b < 2; log2/checked_log2 at {1,2,3,4,7,8,64,65,128,250} and log10/checked_log10 below 4 bits for ALL values; log2(0)/log10(0) and root(degree 0) panic.',
+            'Outside (measured): generic-base log above 4 bits (its float estimate goes through TryFrom<f64>, whose self-recursion CBMC unrolls 2^bound times: 10 GB at bound 5 and up), root for 2 <= degree < BITS (Newton iteration of unbounded length over exp2 of a fractional argument), approx_* functions, pow above 8 bits.'),
     "C14": ("5/C14",
             "reciprocal(d) = floor((2^128-1)/d) - 2^64 on all 256 table rows x both fills x 4 free low bits, plus "
             "d = 2^63, 2^64-1 and reciprocal_2 at 2^127, 2^128-1; thorough adds div_2x1 on a 20-free-bit lattice with a "
@@ -123,7 +105,8 @@ CLAIMS = {
             "adc_n, sbb_n, add_nx1, cmp, adc, sbb, carrying_add, borrowing_sub, shift_left_small/shift_right_small "
             "(amounts 1..=63) for ALL contents at slice lengths 0..=4 (thorough 6); mul_nx1/addmul_nx1/submul_nx1 "
             "(lengths 0..=2, thorough 4), addmul with independent lengths (acc 0..=3, a,b 0..=2; thorough acc 4, a,b 3) "
-            "and addmul_n (0..=2, thorough 5) for ALL contents under the uninterpreted-multiply abstraction; the real "
+            "and addmul_n (0..=2, thorough 5) for ALL contents under the uninterpreted-multiply abstraction, addmul also on the exact "
+            "unit-limb sub-domain (one operand's limbs 0 or 1) at (acc 2, a 2, b 1) and, thorough, (3, 2, 2), per operand order; the real "
             "DoubleWord bodies through mul_nx1/addmul_nx1/submul_nx1 on ALL contents (lengths 1,2) relative to Rust's `*`.",
             "Outside: lengths above those listed (property asks 0..=10); shift amount 0 (debug-panics in `>> 64`: "
             "outside the functions' evident precondition, see DESIGN 7)."),
@@ -174,10 +157,6 @@ CLAIMS = {
 }
 
 NOT_APPLICABLE = {
-    "C12": "input-dependent Euclid/Lehmer loops with a 64-bit division per iteration: Uint<4,1>::gcd did not finish in "
-           "5 min unstubbed or with division shape-pinned, and with the 128-bit prefix path also pinned the unwinding "
-           "assertion fails at the largest bound that finishes (212 s at unwinding 6); the compositional alternative "
-           "needs the same division-heavy from_u64 loops - see DESIGN.md section 5",
     "C19": "quantifies over source programs expanded by a proc-macro inside rustc; no installed engine executes the "
            "proc_macro runtime symbolically and the digit kernel alone exceeds CBMC's reach beyond one character "
            "(measured: OOM at 62 GB on two characters) - see DESIGN.md 5/C19",
